@@ -25,6 +25,10 @@ var rules = map[string]ruleFn{
 	"C09": ruleC09,
 	"C11": ruleC11,
 	"C12": ruleC12,
+	"C13": ruleC13,
+	"C15": ruleC15,
+	"C16": ruleC16,
+	"C18": ruleC18,
 	"C19": ruleC19,
 	"C20": ruleC20,
 	"C10": ruleC10,
